@@ -92,7 +92,9 @@ class AbstractTypeResolver:
                 if id_func(obj):
                     enum_type = data_type
                     break
-            if obj_type not in self.cache_blocklist:
+            # Subclasses of blocklisted types (e.g. numpy masked arrays) can also
+            # change category from one instance to the next.
+            if not issubclass(obj_type, tuple(self.cache_blocklist)):
                 self.type_map[obj_type] = enum_type
 
         return enum_type
